@@ -59,13 +59,13 @@ def describe(tier):
                 'driver mirrors frontend/client/commands.py (JSON -> convert_database_keyword_to_bytes, wait callbacks) and searches every '
                 'keyword plus one absent keyword in both search steps. Oracle: the bytes handed to the search callback deserialize to '
                 'DB.get(w, empty); hex/int/raw (and utf8 for printable identifiers) renderings of BytesConverter reproduce the JSON identifiers; '
-                'a step that raises or a search that ends in the client\'s 60 s (virtual) timeout is a violation. Plus, per scheme, two services with different parameters interleaved command by '
+                'a step that raises or a search that ends in the client\'s 60 s (virtual) timeout is a violation. Plus, per scheme: all 27 ways of letting none / one / all of the server\'s cleanup timers fire after upload-config, upload-index and search1; a second client object loaded from disk before a later step and used (still unconnected) for the searches; two services with different parameters interleaved command by '
                 'command on one server and one client process (both orders). Deliveries are sequential '
                 '(one client): no scheduling choices. non-trivial = placement with at least one reload.',
         'bounds': '2^6 placements x 3 restart options per (scheme, database); 7 steps',
         'assumptions': ['in-memory transport instead of TCP (validated by mc/loopback.py on loopback TCP)',
                         'server restart = the server process is killed between two client commands and started again on the same directory'],
-        'must_be_nonzero': ['workflows', 'absent-searched', 'server-restarts', 'reloads', 'tcp-loopback-replays', 'two-service-workflows', 'patterned-keys'],
+        'must_be_nonzero': ['workflows', 'absent-searched', 'server-restarts', 'reloads', 'tcp-loopback-replays', 'two-service-workflows', 'patterned-keys', 'timing-variants', 'early-object-variants'],
     }
 
 
@@ -90,6 +90,8 @@ def units(tier, seed):
         us.append(('two-services/%s' % name, {'two': name}))
     for name in ('CJJ14.PiBas', 'CGKO06.SSE1', 'DP17.Pi', 'CT14.Pi'):
         us.append(('keypatterns/%s' % name, {'keypatterns': name}))
+    for name in sse.SCHEMES:
+        us.append(('timing/%s' % name, {'timing': name}))
     # conformance of the transport model: workflows replayed over real loopback TCP with the real client (mc/loopback.py)
     if tier == 'quick':
         us.append(('tcp/0', {'tcp': [['CJJ14.PiBas', 0, [1, 0, 1, 0, 1, 1]]]}))
@@ -100,13 +102,19 @@ def units(tier, seed):
     return sorted(us, key=lambda u: not u[0].startswith('tcp'))
 
 
-def run_case(r, seed, name, dbi, bits, restart, keypattern=None):
+def run_case(r, seed, name, dbi, bits, restart, keypattern=None, timing=None, early_object_at=None):
     from toolkit.database_utils import convert_database_keyword_to_bytes
     from toolkit.bytes_utils import BytesConverter
     case = {'scheme': name, 'db': dbi, 'reload_before_step': bits, 'server_restart_before_step': restart}
     if keypattern:
         case['keypattern'] = keypattern
         r.count('patterned-keys')
+    if timing:
+        case['cleanup_timers_fired_after_step'] = timing
+        r.count('timing-variants')
+    if early_object_at is not None:
+        case['early_client_object_loaded_before_step'] = early_object_at
+        r.count('early-object-variants')
     core.note_case(case)
     det.seed_case(seed, PROPERTY, name, dbi)
     jdb = json_dbs()[dbi]
@@ -124,8 +132,24 @@ def run_case(r, seed, name, dbi, bits, restart, keypattern=None):
     step = 'boot'
     try:
         w.start_server()
+        early = None
         for i, step in enumerate(STEPS):
-            if i > 0:
+            if timing and i > 0 and timing.get(str(i - 1)):
+                # virtual time passes between two commands: fire one / all of the server's pending cleanup timers
+                if timing[str(i - 1)] == 1:
+                    fe.fire_one_short_timer(w.loop)
+                else:
+                    fe.settle(w.loop, timers=True)
+            if early_object_at == i:
+                # a second client object is created from disk now, stays unconnected, and is used for the searches later:
+                # its flags are older than what the server knows by then
+                early = fe.ClientDriver(w, 'client#early')
+                early.sid = cl.sid
+                early.load()
+            if early is not None and step.startswith('search') and cl is not early:
+                cl.drop()
+                cl = early
+            if i > 0 and not (early is not None and step.startswith('search')):
                 if restart == i:
                     cl.drop()
                     w.kill_server()
@@ -276,6 +300,15 @@ def run_unit(p, tier, seed):
             run_two_services(r, seed, p['two'], order)
         det.restore()
         return r
+    if 'timing' in p:
+        import itertools as _it
+        for t3, t4, t5 in _it.product((0, 1, 2), repeat=3):
+            run_case(r, seed, p['timing'], 0, [1, 1, 1, 1, 1, 1], None, timing={'3': t3, '4': t4, '5': t5})
+        for at in (2, 3, 4):
+            for keep in (0, 1):
+                run_case(r, seed, p['timing'], 1, [keep] * 6, None, early_object_at=at)
+        det.restore()
+        return r
     if 'keypatterns' in p:
         for pat in det.KEY_PATTERNS:
             run_case(r, seed, p['keypatterns'], 0, [1, 1, 1, 1, 1, 1], None, keypattern=pat)
@@ -306,5 +339,6 @@ def replay(case, seed):
     if case.get('two_services'):
         run_two_services(r, seed, case['scheme'], case['order'])
         return r['violations']
-    run_case(r, seed, case['scheme'], case['db'], case['reload_before_step'], case['server_restart_before_step'], keypattern=case.get('keypattern'))
+    run_case(r, seed, case['scheme'], case['db'], case['reload_before_step'], case['server_restart_before_step'], keypattern=case.get('keypattern'),
+             timing=case.get('cleanup_timers_fired_after_step'), early_object_at=case.get('early_client_object_loaded_before_step'))
     return r['violations']
